@@ -12,7 +12,7 @@ for d in sorted(glob.glob("/verif/seeded/*/")):
     assert subprocess.run("git -C /repo diff --quiet", shell=True).returncode == 0, "/repo not clean"
     assert subprocess.run("git -C /repo apply " + d + "patch.diff", shell=True).returncode == 0, sid
     try:
-        p = subprocess.run(["./check", prop], cwd="/verif", stdout=subprocess.PIPE, stderr=subprocess.STDOUT, text=True)
+        p = subprocess.run(["./check", prop], cwd="/verif", env=dict(os.environ, VERIF_EVIDENCE_DIR="/verif/.work/evidence_mut"), stdout=subprocess.PIPE, stderr=subprocess.STDOUT, text=True)
     finally:
         subprocess.run("git -C /repo checkout -- . ", shell=True)
     viol = re.findall(r"VIOLATION property=\S+ replay=\S+/([^/\s]+)\.txt( no-failing-input-found)?", p.stdout)
